@@ -257,3 +257,25 @@ PROPS['C18'] = {
 MANIFEST_TEXT['C18'] = {'technique': 'runtime monitoring: tagged event logs of two distinguishable stub sets + link-time interposed libc counters scoped to library calls (ASan/UBSan; NDEBUG and assertion-enabled builds)',
     'text': 'polyseed_create is run with scripted random outputs (all 152 single-bit patterns, all-00, all-FF, random) and clocks: exactly 19 bytes must be requested, the stored secret must equal them bit for bit (top two bits dropped), the birthday must come from the injected clock, and no interposed libc entropy/time function may be reached. All 8 NULL/non-NULL combinations of the optional entries are injected after histories of 1-4 earlier tables (every ordered pair of combinations as the last two), the caller\'s struct is overwritten or unmapped after polyseed_inject returns, and every API function is called: all events must carry the last table\'s tag, and libc malloc/free/time must be used inside the library exactly when the entry is NULL.',
     'note': _TB + 'Only libc entry points listed in the --wrap set are observed (malloc, free, calloc, realloc, time, clock_gettime, gettimeofday, getrandom, getentropy, rand, random, open, fopen, clock).'}
+
+PROPS['C13'] = {
+    'level': 'exploration',
+    'exhaustive_possible': True,
+    'runs': [{'name': 'asan', 'flavour': 'asan', 'driver': 'drv_c13', 'timeout': 1800},
+             {'name': 'asan-dbg', 'flavour': 'asan-dbg', 'driver': 'drv_c13', 'env': {'PV_SCALE': '10'}, 'shards': 4, 'timeout': 1800}],
+    'require': {'walks.matched_model': 3000, 'exhaustive.sequences': 11110, 'ops.create': 10000, 'ops.load': 10000, 'ops.decode': 20000, 'ops.crypt': 10000, 'ops.reinject': 3000,
+                'ops.enable': 5000, 'ops.free': 5000, 'observations': 100000},
+}
+MANIFEST_TEXT['C13'] = {'technique': 'runtime monitoring: lock-step execution of operation sequences against an executable abstract model (history + model), junk-filling allocator, ASan/UBSan (NDEBUG and assertion-enabled builds)',
+    'text': 'Random walks of 50-200 operations over up to six live seeds (create with arbitrary arguments, load, both decoders on model phrases / other slots\' phrases / grammar strings / wrong coins, crypt, encode, keygen, getters, free, free(NULL), enable_features, re-injection of a second stub set, armed allocation failures) are executed on the library and on the abstract model; every status, output buffer, getter value, key and dependency tag is compared at once and all other live seeds are re-observed (store image, periodically all observers) after every step. All sequences up to length 4 (quick) / 5 (thorough) over a 10-symbol alphabet are enumerated completely.',
+    'note': _TB + 'Walks are sampled; the short-sequence space is complete for the reduced alphabet only. Re-injection varies the stub set; NULL optional entries are covered by C18.'}
+
+PROPS['C20'] = {
+    'level': 'exploration',
+    'runs': [{'name': 'tsan', 'flavour': 'tsan', 'driver': 'drv_c20', 'shards': 6, 'log_scan': 'tsan', 'timeout': 1800, 'timeout_thorough': 10800}],
+    'require': {'threads.digest_equal_to_solo': 60, 'overlap.total': 20000, 'overlap.crypt+decode': 50, 'overlap.encode+encode': 50, 'overlap.create+free': 50, 'overlap.decode+decode': 50,
+                'rounds.8_threads': 3, 'rounds.16_threads': 3},
+}
+MANIFEST_TEXT['C20'] = {'technique': 'runtime monitoring: ThreadSanitizer build (library + harness) under multi-threaded scripted workloads with yields injected at the dependency callbacks; serial-vs-concurrent transcript equality',
+    'text': 'After one injection and one feature configuration, 8 and 16 threads execute deterministic scripts of every seed operation on private seeds (all languages), with random sched_yield/spins inside the dependency callbacks (the library\'s own suspension points) and several repetitions with different yield seeds. Any ThreadSanitizer report with a library frame is a violation (deduplicated by entry-point pair); each thread\'s transcript digest must equal that of the same script executed alone. A logical clock (relaxed atomics, so that it adds no synchronisation) measures how many call pairs of different threads really overlapped, per operation pair; a run with too few is inconclusive.',
+    'note': _TB + 'TSan is happens-before based and sees only the executions produced; the harness records nothing under locks while threads run, so that it adds no happens-before edges of its own.'}
